@@ -2,6 +2,7 @@
 //
 //	REQ retry mr=<int> init=<ns> max=<ns> mul=<p>/<q> rf=<a>/<b> el=<ns> hook=<0|1> log=<0|1> outs=<o0>,… cancel=<j|-> ctxend=<call|pre|deadline|-> sleep=<j>:<ns>|-
 //	          conc=<M>:<idx>:<stagger ns>|-   (M messages concurrently through one middleware instance; this case reports message idx)
+//	          pass=<P>:<idx>|-                (the same message object handled P times in a row; this case reports pass idx)
 //	          n=<calls> d=<delays reported to OnRetryHook> ts=<start of call i>,… te=<end of call i>,… tr=<return>
 //	          tq=<when the context was first asked for its deadline/Done after call 0 | ->
 //	OBS n=<calls> hooks=<num>:<delay>,…|- res=<msgs|->/<err|-> time=ok
@@ -58,6 +59,8 @@ type tcase struct {
 	concN   int   // messages sent concurrently through one middleware instance (0/1 = a single message)
 	concIdx int   // which of them this case reports
 	stagger int64 // start offset between them, ns
+	passes  int   // the same message object is handled this many times in a row (0/1 = once)
+	passIdx int   // which of the passes this case reports
 	group   string
 }
 
@@ -111,8 +114,12 @@ func (c tcase) inputs() string {
 	if c.concN > 1 {
 		conc = fmt.Sprintf("%d:%d:%d", c.concN, c.concIdx, c.stagger)
 	}
-	return fmt.Sprintf("retry mr=%d init=%d max=%d mul=%d/%d rf=%d/%d el=%d hook=%d log=%d outs=%s cancel=%s ctxend=%s sleep=%s conc=%s",
-		c.mr, c.init, c.max, c.mulP, c.mulQ, c.rfA, c.rfB, c.el, hk, lg, strings.Join(outs, ","), cancel, ctxEnd, sleep, conc)
+	pass := "-"
+	if c.passes > 1 {
+		pass = fmt.Sprintf("%d:%d", c.passes, c.passIdx)
+	}
+	return fmt.Sprintf("retry mr=%d init=%d max=%d mul=%d/%d rf=%d/%d el=%d hook=%d log=%d outs=%s cancel=%s ctxend=%s sleep=%s conc=%s pass=%s",
+		c.mr, c.init, c.max, c.mulP, c.mulQ, c.rfA, c.rfB, c.el, hk, lg, strings.Join(outs, ","), cancel, ctxEnd, sleep, conc, pass)
 }
 
 func joinI(xs []int64) string {
@@ -290,9 +297,10 @@ func runScenario(c tcase) []rec {
 		}
 		f.cancel, f.ctx = cancel, ctx
 		msg := message.NewMessage(fmt.Sprintf("m%d", k), []byte("payload"))
+		uuid := msg.UUID
 		msg.SetContext(obsCtx{ctx, func() {
 			mu.Lock()
-			if f.calls > 0 && f.tq < 0 {
+			if f := byMsg[uuid]; f != nil && f.calls > 0 && f.tq < 0 {
 				f.tq = int64(time.Since(f.base))
 			}
 			mu.Unlock()
@@ -300,6 +308,11 @@ func runScenario(c tcase) []rec {
 		flights[k], msgs[k] = f, msg
 		byMsg[msg.UUID] = f
 	}
+	passes := c.passes
+	if passes < 1 || n > 1 {
+		passes = 1
+	}
+	perPass := make([]rec, passes) // of message 0, when the same message object is handled several times in a row
 	var wg sync.WaitGroup
 	for k := 0; k < n; k++ {
 		k := k
@@ -311,52 +324,74 @@ func runScenario(c tcase) []rec {
 			if c.cancel == 0 && c.ctxEnd == "pre" {
 				f.cancel() // the message arrives with its context already cancelled
 			}
-			var produced []*message.Message
-			var err error
-			func() {
-				defer func() {
-					if v := recover(); v != nil {
-						f.r.panicV = wh.PanicText(v)
+			for pass := 0; pass < passes; pass++ {
+				if pass > 0 {
+					// the SAME message object is handled again (redelivery, an outer layer calling the handler again); the caller has
+					// not touched it in between: its context is the one set before the first pass and is still alive
+					nf := &flight{tq: -1, ended: -1, ctx: f.ctx, cancel: f.cancel}
+					nf.errs = make([]error, len(c.outs)+4)
+					for i := range nf.errs {
+						nf.errs[i] = fmt.Errorf("e%d", i)
 					}
+					mu.Lock()
+					byMsg[msgs[k].UUID] = nf
+					flights[k] = nf
+					mu.Unlock()
+					f = nf
+				}
+				func() {
+					var produced []*message.Message
+					var err error
+					func() {
+						defer func() {
+							if v := recover(); v != nil {
+								f.r.panicV = wh.PanicText(v)
+							}
+						}()
+						produced, err = wrapped(msgs[k])
+					}()
+					mu.Lock()
+					defer mu.Unlock()
+					r := &f.r
+					r.tr = int64(time.Since(f.base))
+					r.tq = f.tq
+					r.ended = f.ended
+					if r.ended < 0 && f.ctx.Err() != nil && c.cancel >= 0 {
+						r.ended = f.calls - 1 // it ended between two calls
+					}
+					r.n = f.calls
+					if len(produced) == 0 {
+						r.msgs = "-"
+					} else {
+						p := make([]string, len(produced))
+						for i, m := range produced {
+							p[i] = m.UUID
+						}
+						r.msgs = strings.Join(p, "+")
+					}
+					r.err = "?"
+					if err == nil {
+						r.err = "-"
+					} else {
+						for i, e := range f.errs {
+							if err == e {
+								r.err = "e" + strconv.Itoa(i)
+							}
+						}
+						if r.err == "?" {
+							r.err = "?" + wh.HexS(err.Error())
+						}
+					}
+					perPass[pass%len(perPass)] = *r
 				}()
-				produced, err = wrapped(msgs[k])
-			}()
-			mu.Lock()
-			defer mu.Unlock()
-			r := &f.r
-			r.tr = int64(time.Since(f.base))
-			r.tq = f.tq
-			r.ended = f.ended
-			if r.ended < 0 && f.ctx.Err() != nil && c.cancel >= 0 {
-				r.ended = f.calls - 1 // it ended between two calls
-			}
-			r.n = f.calls
-			if len(produced) == 0 {
-				r.msgs = "-"
-			} else {
-				p := make([]string, len(produced))
-				for i, m := range produced {
-					p[i] = m.UUID
-				}
-				r.msgs = strings.Join(p, "+")
-			}
-			r.err = "?"
-			if err == nil {
-				r.err = "-"
-			} else {
-				for i, e := range f.errs {
-					if err == e {
-						r.err = "e" + strconv.Itoa(i)
-					}
-				}
-				if r.err == "?" {
-					r.err = "?" + wh.HexS(err.Error())
-				}
 			}
 			f.cancel()
 		}()
 	}
 	wg.Wait()
+	if passes > 1 {
+		return perPass
+	}
 	out := make([]rec, n)
 	for k := range flights {
 		out[k] = flights[k].r
@@ -504,6 +539,17 @@ func parseCase(line string) (tcase, error) {
 					c.stagger, err = strconv.ParseInt(p[2], 10, 64)
 				}
 			}
+		case "pass":
+			if kv[1] != "-" {
+				p := strings.Split(kv[1], ":")
+				if len(p) != 2 {
+					return c, fmt.Errorf("pass %q", kv[1])
+				}
+				c.passes, err = strconv.Atoi(p[0])
+				if err == nil {
+					c.passIdx, err = strconv.Atoi(p[1])
+				}
+			}
 		case "n", "d", "ts", "te", "tr", "tq": // recorded part of an earlier run: taken anew
 		default:
 			return c, fmt.Errorf("key %q", kv[0])
@@ -645,6 +691,22 @@ func generate(a wh.Args) []tcase {
 			cs = append(cs, tcase{mr: mr, init: []int64{0, 100 * us, 1 * ms}[rng.Intn(3)], max: 2 * ms, mulP: 2, mulQ: 1, rfA: int64(rng.Intn(2)), rfB: 2,
 				el: []int64{0, 0, 10000 * ms}[rng.Intn(3)], hook: true, outs: outs, cancel: -1, sleepAt: -1, group: "ctxerr"})
 		}
+	}
+
+	// (2d) the SAME message object goes through the Retry-wrapped handler two or three times in a row (redelivery of the message
+	// object, an outer layer invoking the handler again), the caller leaving its context alone: every pass has the full
+	// MaxRetries and its own MaxElapsedTime budget - Retry must not leave anything on the message that ends the next pass
+	nPass := 10
+	if thorough {
+		nPass = 60
+	}
+	for i := 0; i < nPass; i++ {
+		mr := 1 + rng.Intn(6)
+		t := calls(mr)
+		cs = append(cs, tcase{mr: mr, init: []int64{0, 1 * ms, 12 * ms}[i%3], max: 12 * ms, mulP: 1, mulQ: 1, rfA: 0, rfB: 1,
+			el: []int64{10000 * ms, 3600000 * ms, 0, 10000 * ms}[i%4], hook: true,
+			outs: outsFor(t, []int{t, t, t - 1, 1}[rng.Intn(4)], nouts(rng)), cancel: -1, sleepAt: -1,
+			passes: 2 + i%2, group: "repass"})
 	}
 
 	// (3) back-off schedule: random configurations, intervals 0..3 ms, multipliers {1, 3/2, 2, 3}, rf {0, 1/2, 1}
@@ -805,9 +867,16 @@ func main() {
 		}
 		for k, r := range runFiltered(c, out) {
 			ck := c
-			ck.concIdx = k
-			if c.concN > 1 && k != c.concIdx {
-				continue // the replayed request names one message of the scenario
+			if c.passes > 1 {
+				ck.passIdx = k
+				if k != c.passIdx {
+					continue // the replayed request names one pass of the scenario
+				}
+			} else {
+				ck.concIdx = k
+				if c.concN > 1 && k != c.concIdx {
+					continue // the replayed request names one message of the scenario
+				}
 			}
 			out.Case(ck.req(r), r.obs())
 		}
@@ -835,7 +904,12 @@ func main() {
 	for i, c0 := range cs {
 		for k, r := range recs[i] {
 			c := c0
-			c.concIdx = k
+			if c.passes > 1 {
+				c.passIdx = k
+				out.Count("repeated_passes")
+			} else {
+				c.concIdx = k
+			}
 			out.Case(c.req(r), r.obs())
 			out.Count("group." + c.group)
 			out.Count("calls." + wh.Itoa(r.n))
